@@ -32,13 +32,13 @@ Proof. tie_solve. Qed.
 Print Assumptions tie_maven_normalizeQualifier.
 
 (* the body of the loop of parseVersionString: "normalized := normalizeQualifier(part);
-   if num, err := strconv.Atoi(normalized); err == nil { number num } else { string normalized }"
+   if num, ok := new(big.Int).SetString(normalized, 10); ok { number num } else { string normalized }"
    is the model's elem_of.  Explicit abstraction: Go's element{value interface{}; isNumber bool} is
    read as the model's elem, Num z for {z, true} and Str s for {s, false}; the generated record
    drops the field value (interface{}), see the header of Tie/Loops/Maven.v, so the statement is
    about the two values the Go code computes, not about the generated record. *)
 Theorem tie_maven_elem_of : forall part,
-  match atoi (G.normalizeQualifier part) with
+  match M.big_of (G.normalizeQualifier part) with
   | Some z => M.Num z
   | None => M.Str (G.normalizeQualifier part)
   end = M.elem_of part.
